@@ -511,7 +511,9 @@ class C17(Prop):
     rule = ("per helper: exhaustive small scopes (list pairs over 4-symbol alphabets, patterns/texts over {a,b,*,?,[,],!} and a range alphabet, "
             "every prefix length x structured addresses, dotted versions over {0,1,9,10,12}, tag lists with duplicate/missing keys, ARN shapes with "
             "4..7 fields) + seeded random larger ones; each called directly and (a share) through CEL on both runners in function and method "
-            "syntax; context histories: every ok/fail sequence up to length 6 with seeded styles. non-trivial = distinct case whose outcome is "
+            "syntax; context histories: every ok/fail sequence up to length 6 with seeded styles plus seeded short ones; each history "
+            "starts with runner objects of its own, re-evaluates the same program, and installs filter stand-ins that are different "
+            "objects comparing equal (equality classes), the very same object again, or unequal ones. non-trivial = distinct case whose outcome is "
             "not the default one for its kind (true set result, matching glob, contained network, true comparison, found key, non-null, "
             "history containing a failing evaluation)")
 
